@@ -84,16 +84,25 @@ def r_tydesc(d):
     raise ValueError(d)
 
 
-def r_set_pkg(s):
+def r_set_pkg(s, r):
+    funcs = [p for p in s["providers"] if not p["struct"]]
+    structs = [p for p in s["providers"] if p["struct"]]
     provs = coq_list(["mkProv %d %d %s %s %s %s %s %s %s %s" % (
-        p["id"], p.get("pkg", 0), coq_str(p.get("goname", ("T%d" % (p["outs"][0] // 2)) if p["struct"] else "P%d" % p["id"])),
-        synth.r_nats(p["args"]), coq_list([coq_str(f) for f in p["fields"]]),
-        coq_bool(p["varargs"]), coq_bool(p["struct"]), synth.r_nats(p["outs"]), coq_bool(p["cleanup"]), coq_bool(p["err"]))
-        for p in s["providers"]])
+        p["id"], p.get("pkg", 0), coq_str("P%d" % p["id"]),
+        synth.r_nats(p["args"]), "[]", coq_bool(p["varargs"]), "false", synth.r_nats(p["outs"]), coq_bool(p["cleanup"]), coq_bool(p["err"]))
+        for p in funcs])
+    sps = []
+    for p in structs:
+        k = p["outs"][0] // 2
+        td = r.types[k]
+        fields = ['mkSF %s 0 %s' % (coq_str("ID"), coq_str('wire:"-"'))] + \
+                 ["mkSF %s %d %s" % (coq_str(f["name"]), f["t"], coq_str(f["tag"])) for f in td["fields"]]
+        sps.append("mkSProv %d 1 %s %d %d %s %s" % (p["id"], coq_str("T%d" % k), 2 * k, 2 * k + 1, coq_list(fields),
+                                                   coq_list([coq_str(l) for l in p.get("_lits", [])])))
     vals = coq_list(["mkVal %d %d %s" % (v["id"], v["out"], coq_bool(v.get("ok", True))) for v in s["values"]])
     flds = coq_list(["mkField %d %d %d %s %s" % (f["id"], f.get("pkg", 1), f["parent"], coq_str(f["name"]), synth.r_nats(f["outs"])) for f in s["fields"]])
     binds = coq_list(["mkBind %d %d %d" % (b["id"], b["iface"], b["conc"]) for b in s["bindings"]])
-    return "(RSet %d %s %s %s %s %s)" % (s["id"], coq_list([r_set_pkg(i) for i in s["imports"]]), provs, vals, flds, binds)
+    return "(RSet %d %s %s %s %s %s %s)" % (s["id"], coq_list([r_set_pkg(i, r) for i in s["imports"]]), provs, coq_list(sps), vals, flds, binds)
 
 
 def case_term(i, p, r, o):
@@ -132,16 +141,18 @@ def case_term(i, p, r, o):
     else:
         ds = synth.parse_errors(tree, o["errors"], parse_t=ptid, strip=strip_msg)
         stage = "StSet"
+        if not ds:
+            ds = [("DUnparsed", 0)]
         if any(d[0] in ("DNoProvider",) or d[0].startswith("DUnused") for d in ds):
             stage = "StSolve"
         if any(d[0] in ("DNeedsCleanup", "DNeedsErr", "DValueAccess") for d in ds):
             stage = "StInject"
         obs = "(GOErr %s %s)" % (stage, coq_list([synth.r_diag(d) for d in ds]))
         kind = (stage, ds)
-    return "(mkGCase %d %s %s %s %s %s %s)" % (i, env, synth.r_nats(order), r_set_pkg(tree), inj, coq_list(vals), obs), kind
+    return "(mkGCase %d %s %s %s %s %s %s)" % (i, env, synth.r_nats(order), r_set_pkg(tree, r), inj, coq_list(vals), obs), kind
 
 
-HEADER = ("From Coq Require Import List String.\nFrom Wire Require Import Sets Model Names Emit.\n"
+HEADER = ("From Coq Require Import List String.\nFrom Wire Require Import Sets Front Model Names Emit.\n"
           "Import ListNotations.\nOpen Scope string_scope.\n")
 
 
